@@ -51,7 +51,7 @@ def generate(rng, tier):
     nschema = 160 if tier == "quick" else 1500
     per = 8 if tier == "quick" else 20
     for _ in range(nschema):
-        opts = with_printcb(rng, gen.rand_schema(rng, maxdepth=3, allow=("int", "float", "bool", "str", "sec", "func", "ptr"), p_flags=0.3))
+        opts = with_printcb(rng, gen.rand_schema(rng, maxdepth=3, allow=("int", "float", "bool", "str", "sec", "func", "ptr"), p_flags=0.3, p_simple=0.15))
         sl = schema_lines(opts)
         names = [o.name for _p, o in gen.all_opts(opts)]
         secs = [p for p, o in gen.all_opts(opts) if o.ty == "sec"]
